@@ -288,7 +288,7 @@ class Main(Suite):
     name = "main"
     go_cmd = "c38"
     coq_imports = "From GoGit Require Import Model.RefSpec Model.RevList Model.PushRules."
-    quick_n = 360
+    quick_n = 260
     thorough_n = 2500
     coq_chunk = 120
 
